@@ -9,7 +9,7 @@ import Scc.Fun2Core.SemTfv
 namespace Scc.Fun2Core.Sem
 open Scc
 
-variable {G : Fun.Term → Prop} {q : Core.Prog}
+variable {G : Fun.Term → Prop} {q : Core.Prog} {p : Fun.CheckedProgram}
 
 /-! ## the Fun side -/
 
@@ -105,16 +105,16 @@ theorem bind_ok_of_length : ∀ (ctx : Core.Ctx) (Vs : List CVal) (ρ : CEnv),
 /-! ## both sides -/
 
 theorem VRelL.length {n : Nat} : ∀ {vs : List Fun.Value} {Vs : List CVal},
-    VRelL G q n vs Vs → vs.length = Vs.length
+    VRelL G p q n vs Vs → vs.length = Vs.length
   | _, _, .nil _ => rfl
   | _, _, .cons _ h => by simp [VRelL.length h]
 
 /-- corresponding positions of the parallel lists hold related values -/
 theorem zip_rel {n : Nat} (y : String) : ∀ (ctx : Fun.Ctx) (vs : List Fun.Value) (Vs : List CVal),
-    VRelL G q n vs Vs → ctx.length = vs.length →
+    VRelL G p q n vs Vs → ctx.length = vs.length →
     (zipL y (ctx.map (·.var)) vs = none ∧ zipC ⟨y, 0⟩ (compileContext ctx) Vs = none) ∨
     ∃ v V, zipL y (ctx.map (·.var)) vs = some v ∧ zipC ⟨y, 0⟩ (compileContext ctx) Vs = some V ∧
-      VRel G q n v V
+      VRel G p q n v V
   | [], [], _, .nil _, _ => .inl ⟨rfl, rfl⟩
   | [], _ :: _, _, _, h => by simp at h
   | _ :: _, [], _, _, h => by simp at h
@@ -141,10 +141,10 @@ theorem compileContext_length (ctx : Fun.Ctx) : (compileContext ctx).length = ct
 /-- binding the parameters of a clause / definition on both sides -/
 theorem EnvRel.bindAll {n : Nat} {xs : List String} {env env' : Fun.Env} {ρ0 : CEnv}
     {ctx : Fun.Ctx} {vs : List Fun.Value} {Vs : List CVal}
-    (he : EnvRel G q n (xs.filter (fun x => !(ctx.map (·.var)).contains x)) env ρ0)
-    (hv : VRelL G q n vs Vs) (hn : (ctx.map (·.var)).Nodup)
+    (he : EnvRel G p q n (xs.filter (fun x => !(ctx.map (·.var)).contains x)) env ρ0)
+    (hv : VRelL G p q n vs Vs) (hn : (ctx.map (·.var)).Nodup)
     (hb : Fun.bindAll (ctx.map (·.var)) vs env = some env') :
-    ∃ ρ0', Core.Env.bind ρ0 (compileContext ctx) Vs = .ok ρ0' ∧ EnvRel G q n xs env' ρ0' := by
+    ∃ ρ0', Core.Env.bind ρ0 (compileContext ctx) Vs = .ok ρ0' ∧ EnvRel G p q n xs env' ρ0' := by
   have hlen := bindAll_length _ _ _ _ hb
   simp only [List.length_map] at hlen
   obtain ⟨ρ0', hρ⟩ := bind_ok_of_length (compileContext ctx) Vs ρ0
